@@ -96,6 +96,22 @@ fn aborted_run_before(case: &Case, ctx: &mut Ctx) {
 
 /// check + the generic "no jawk panic" rule + harness error detection
 pub fn full_check(prop: &dyn Property, case: &Case, ctx: &mut Ctx) -> Result<Option<Violation>, String> {
+    if case.param("fresh_thread") == 1 {
+        // a scenario about what accumulates within one run starts from a thread that has
+        // never run jawk (thread-locals at their initial values), as a real process does
+        let mut c2 = case.clone();
+        c2.params.remove("fresh_thread");
+        let r = std::thread::scope(|sc| {
+            std::thread::Builder::new()
+                .stack_size(8 << 20)
+                .spawn_scoped(sc, || full_check(prop, &c2, ctx))
+                .map(|h| h.join())
+        });
+        return match r {
+            Ok(Ok(v)) => v,
+            _ => Err("the fresh thread of a scenario could not be run".into()),
+        };
+    }
     if case.param("aborted_run_before") == 1 {
         aborted_run_before(case, ctx);
     }
